@@ -264,6 +264,6 @@ def variants(root):
         V('diffusion: diagonal kept', 'break', E, '    np.fill_diagonal(ediff, 0)\n', '', 'M.diffusion-efficiency', 'diffusion_efficiency'),
         V('neutral: matmul in findwalks', 'neutral', D, 'CIJpwr = np.dot(CIJpwr, CIJ)', 'CIJpwr = CIJpwr @ CIJ', scope='def findwalks('),
         V('neutral: n*(n-1)', 'neutral', E, 'gediff = np.sum(ediff) / (n ** 2 - n)', 'gediff = np.sum(ediff) / (n * (n - 1))', scope='def diffusion_efficiency('),
-        V('neutral: mfpt temporaries', 'neutral', D, '    I = np.eye(n)\n    Z = np.linalg.inv(I - P + W)', '    Z = np.linalg.inv(np.eye(n) - P + W)', scope='def mean_first_passage_time('),
+        V('neutral: mfpt temporaries', 'neutral', D, '    I = np.eye(n)\n\n    Z = np.linalg.inv(I - P + W)', '    Z = np.linalg.inv(np.eye(n) - P + W)', scope='def mean_first_passage_time('),
     ]
     return out
